@@ -251,6 +251,9 @@ def c_demux(n=3):
         h.ensure(f"ens.sel{i}", z3.Implies(sel, z3.And(h.v(s_.valid) == h.v(d.sink.valid), z3.Implies(b(h.v(s_.valid)), tok(h, s_) == tok(h, d.sink)), h.v(d.sink.ready) == h.v(s_.ready))))
         h.ensure(f"ens.unsel{i}", z3.Implies(z3.Not(sel), z3.Not(b(h.v(s_.valid)))))
         hold_clause(h, s_, name=f"ens.hold{i}")
+    # nothing is lost or duplicated whatever `sel` holds (also a value that selects no source): a sink handshake is exactly one source handshake
+    h.ensure("ens.no-loss", z3.Implies(fire(h, d.sink), z3.Or(*[fire(h, s_) for s_ in sources])))
+    h.ensure("ens.no-dup", z3.And(z3.AtMost(*[b(h.v(s_.valid)) for s_ in sources], 1), *[z3.Implies(fire(h, s_), fire(h, d.sink)) for s_ in sources]))
     h.cover("cover.deliver", fire(h, sources[n - 1]), depth=2)
     h.functions = ["litex.soc.interconnect.stream.Demultiplexer.__init__"]
     return h
@@ -603,6 +606,7 @@ def chain_hints(h, modules):
     LW = h.qlen.size()
     cnt = K(0, LW)
     for i, (occ, t) in enumerate(slots):
+        if t.size() != h.q[0].size(): return False        # the storage slot no longer has the shape of a whole token (hints only: fall back to the generated candidates)
         for j in range(min(i + 1, len(h.q))):
             h.hint(f"slot{i}@{j}", z3.Implies(z3.And(occ, cnt == K(j, LW)), t == h.q[j]))
         cnt = cnt + z3.If(occ, K(1, LW), K(0, LW))
